@@ -138,6 +138,7 @@ let exec s (race : bool) (op : string list) (obs : string list) : string list =
     let r = match step s (Model.OWrite (nat h, cs raddr, cs b)) with
       | Model.XN n -> ["n"; string_of_z n] | _ -> ["err"] in
     settle s; r
+  | "wrstall" :: _ -> ["skip"]   (* a write parked in the socket: no visible step until the connection is closed *)
   | ["rd"; h] ->
     let hi = int_of_string h in
     if not (Hashtbl.mem s.handles hi) then ["skip"] else begin
